@@ -402,6 +402,16 @@ def replay_case(mod, loc):
     return "case not regenerated (generator changed?)"
 
 
+def _top(d, n):
+    """keep the n largest buckets of a histogram, fold the rest into one entry"""
+    if len(d) <= n:
+        return d
+    items = sorted(d.items(), key=lambda kv: -kv[1])
+    out = dict(items[:n])
+    out["(other %d buckets)" % (len(items) - n)] = sum(v for _, v in items[n:])
+    return out
+
+
 def nshards_for(tier):
     return 8 if tier == "quick" else 16
 
@@ -615,7 +625,7 @@ def run_property(modname, tier, seed):
             "rule": getattr(mod, "RULE", ""),
             "correspondence_cases": n_corr, "correspondence_distinct": len(distinct),
             "correspondence_disagreements": n_dis,
-            "correspondence_per_suite": per_suite, "input_distribution": tags,
+            "correspondence_per_suite": per_suite, "input_distribution": _top(tags, 150),
             "impl_outcome_kinds": errkinds,
             "oracle_inputs": n_orc, "oracle_per_site": per_site,
             "oracle_failures_unlisted": len(unlisted), "oracle_failures_in_known_regions": suppressed,
